@@ -500,7 +500,17 @@ func (c *Ctx) execSwitch(x *ast.SwitchStmt, st *State) Flow {
 		m = c.defRaw("case", "Bool", m)
 		cs := c.withGuard(st, and(noneMatched, m))
 		c.caseEnter(cc, cs)
+		var csnap *State
+		if c.onCaseExit != nil && c.caseExitAll {
+			csnap = cs.clone()
+		}
 		f := c.execBlock(cc.Body, cs)
+		if csnap != nil {
+			if end := c.one(f); end != nil {
+				c.onCaseExit(c, cc, csnap, end)
+				f = Flow{next: end, brk: f.brk, cont: f.cont}
+			}
+		}
 		outs = append(outs, c.one(f))
 		outs = append(outs, f.brk...)
 		conts = append(conts, f.cont...)
@@ -742,7 +752,36 @@ func (c *Ctx) modsOfV(visited map[*ast.FuncLit]bool, nodes ...ast.Node) modSet {
 						}
 					}
 				}
-				// byte-slice arguments may be written by the callee
+				// byte-slice arguments may be written by the callee — unless its contract says otherwise
+				if tv, ok := c.info.Types[x.Fun]; ok && tv.IsType() {
+					return true // a conversion writes nothing
+				}
+				if id, ok := x.Fun.(*ast.Ident); ok {
+					if _, isB := c.info.Uses[id].(*types.Builtin); isB {
+						if id.Name == "copy" && len(x.Args) == 2 {
+							// copy writes its destination only
+							d := x.Args[0]
+							if se, ok := d.(*ast.SliceExpr); ok {
+								d = se.X
+							}
+							if did, ok := d.(*ast.Ident); ok {
+								if o := c.objOf(did); o != nil && isByteSlice(o.Type()) {
+									m.regions[o] = true
+								}
+							}
+						}
+						return true
+					}
+				}
+				if fn := c.calleeFunc(x); fn != nil {
+					k := funcKey(fn)
+					if sp := c.prog.contracts.Funcs[k]; sp != nil && len(sp.Assigns) == 0 {
+						return true
+					}
+					if k == "google.golang.org/protobuf/proto.UnmarshalOptions.Unmarshal" || (fn.Pkg() != nil && purePkgs[fn.Pkg().Path()]) {
+						return true // reads its input bytes only (trusted)
+					}
+				}
 				for _, a := range x.Args {
 					if id, ok := a.(*ast.Ident); ok {
 						if o := c.objOf(id); o != nil && isByteSlice(o.Type()) {
